@@ -306,6 +306,89 @@ let gen_cmd (payload : string) : string =
        | Some c -> "OK\t" ^ core_sx c
        | None -> "NONE")
 
+
+(* ---------- Core S-expression -> Core.core ---------- *)
+let cbin_of = function
+  | "Add" -> Some CbAdd | "Sub" -> Some CbSub | "Mul" -> Some CbMul | "Div" -> Some CbDiv | "FDiv" -> Some CbFDiv
+  | "Mod" -> Some CbMod | "Pow" -> Some CbPow | "BAnd" -> Some CbBAnd | "BOr" -> Some CbBOr | "BXOr" -> Some CbBXOr
+  | "BLShift" -> Some CbBLShift | "BRShift" -> Some CbBRShift | "And" -> Some CbAnd | "Or" -> Some CbOr
+  | "Ge" -> Some CbGe | "Geq" -> Some CbGeq | "Le" -> Some CbLe | "Leq" -> Some CbLeq | "Eq" -> Some CbEq
+  | "Neq" -> Some CbNeq | "Is" -> Some CbIs | "IsN" -> Some CbIsN | "In" -> Some CbIn | "IsA" -> Some CbIsA
+  | _ -> None
+let cun_of = function
+  | "AddU" -> Some CuAddU | "SubU" -> Some CuSubU | "BOneCmpl" -> Some CuBOneCmpl | "Not" -> Some CuNot
+  | "Sqrt" -> Some CuSqrt | "Return" -> Some CuReturn | "Raise" -> Some CuRaise | _ -> None
+let coreop_of = function
+  | "Assign" -> OpAssign | "AddAssign" -> OpAddAssign | "SubAssign" -> OpSubAssign | "MulAssign" -> OpMulAssign
+  | "DivAssign" -> OpDivAssign | "PowAssign" -> OpPowAssign | "BLShiftAssign" -> OpBLShiftAssign
+  | "BRShiftAssign" -> OpBRShiftAssign | o -> raise (Bad ("coreop " ^ o))
+let funop_of0 = function
+  | "Ge" -> FGe | "Geq" -> FGeq | "Le" -> FLe | "Leq" -> FLeq | "Eq" -> FEq | "Neq" -> FNeq | "Add" -> FAdd
+  | "Sub" -> FSub | "Mul" -> FMul | "Div" -> FDiv | "Pow" -> FPow | "Mod" -> FMod | "FDiv" -> FFDiv
+  | o -> raise (Bad ("funop " ^ o))
+let rec core_of (s : sx) : core =
+  let l x = List.map core_of (lst x) in
+  let o = function Atom "~" -> None | x -> Some (core_of x) in
+  match s with
+  | Atom "Break" -> Break | Atom "Continue" -> Continue | Atom "UnderScore" -> UnderScore | Atom "Pass" -> Pass
+  | Atom "None" -> None_ | Atom "Empty" -> Empty
+  | Node ("Import", [f; i; a]) -> Import (o f, l i, l a)
+  | Node ("ClassDef", [n; p; b]) -> ClassDef (core_of n, l p, core_of b)
+  | Node ("FunctionCall", [f; a]) -> FunctionCall (core_of f, l a)
+  | Node ("PropertyCall", [x; p]) -> PropertyCall (core_of x, core_of p)
+  | Node ("Id", [a]) -> Id (str a)
+  | Node ("Type", [a; g]) -> Type_ (str a, l g)
+  | Node ("ExpressionType", [e; t]) -> ExpressionType (core_of e, core_of t)
+  | Node ("Assign", [x; y; op]) -> Assign (core_of x, core_of y, coreop_of (atom op))
+  | Node ("VarDef", [v; t; e]) -> VarDef (core_of v, o t, o e)
+  | Node ("FunDefOp", [op; a; t; b]) -> FunDefOp (funop_of0 (atom op), l a, o t, core_of b)
+  | Node ("FunDef", [d; i; a; t; b]) -> FunDef (List.map str (lst d), str i, l a, o t, core_of b)
+  | Node ("FunArg", [v; x; t; d]) -> FunArg (boolean v, core_of x, o t, o d)
+  | Node ("AnonFun", [a; b]) -> AnonFun (l a, core_of b)
+  | Node ("Block", [s]) -> Block (l s)
+  | Node ("Float", [a]) -> Float (str a) | Node ("Int", [a]) -> Int (str a)
+  | Node ("ENum", [a; b]) -> ENum (str a, str b)
+  | Node ("DocStr", [a]) -> DocStr (str a) | Node ("Str", [a]) -> Str (str a) | Node ("FStr", [a]) -> FStr (str a)
+  | Node ("Bool", [a]) -> Bool (boolean a)
+  | Node ("Tuple", [e]) -> Tuple (l e) | Node ("TupleLiteral", [e]) -> TupleLiteral (l e)
+  | Node ("DictComprehension", [f; t; c; cs]) -> DictComprehension (core_of f, core_of t, core_of c, l cs)
+  | Node ("Comprehension", [e; c; cs]) -> Comprehension (core_of e, core_of c, l cs)
+  | Node ("Dictionary", [es]) ->
+      Dictionary (List.map (function List [k; v] -> (core_of k, core_of v) | _ -> raise (Bad "dict")) (lst es))
+  | Node ("Set", [e]) -> Set_ (l e) | Node ("List", [e]) -> List_ (l e)
+  | Node ("Index", [i; r]) -> Index (core_of i, core_of r)
+  | Node ("For", [e; c; b]) -> For (core_of e, core_of c, core_of b)
+  | Node ("If", [c; t]) -> If (core_of c, core_of t)
+  | Node ("IfElse", [c; t; e]) -> IfElse (core_of c, core_of t, core_of e)
+  | Node ("Match", [e; cs]) -> Match (core_of e, l cs)
+  | Node ("Case", [e; b]) -> Case (core_of e, core_of b)
+  | Node ("Ternary", [c; t; e]) -> Ternary (core_of c, core_of t, core_of e)
+  | Node ("KeyValue", [k; v]) -> KeyValue (core_of k, core_of v)
+  | Node ("While", [c; b]) -> While (core_of c, core_of b)
+  | Node ("TryExcept", [s; a; ex]) -> TryExcept (o s, core_of a, l ex)
+  | Node ("ExceptId", [i; c; b]) -> ExceptId (core_of i, core_of c, core_of b)
+  | Node ("Except", [c; b]) -> Except (core_of c, core_of b)
+  | Node ("With", [r; e]) -> With (core_of r, core_of e)
+  | Node ("WithAs", [r; a; e]) -> WithAs (core_of r, core_of a, core_of e)
+  | Node (h, [x; y]) when cbin_of h <> None ->
+      (match cbin_of h with Some op -> Bin (op, core_of x, core_of y) | None -> assert false)
+  | Node (h, [x]) when cun_of h <> None ->
+      (match cun_of h with Some op -> Un (op, core_of x) | None -> assert false)
+  | Node (h, _) -> raise (Bad ("core constructor " ^ h))
+  | Atom a -> raise (Bad ("core atom " ^ a))
+  | List _ -> raise (Bad "core list")
+
+let rec nat_to_int = function O -> 0 | S n -> 1 + nat_to_int n
+let stok_text = function E t -> tok_text t | K s -> implode s
+let plines_cmd (payload : string) : string =
+  let c = core_of (parse_sx payload) in
+  match plines c O with
+  | None -> "OUTSIDE\tnot in the statement model"
+  | Some ls ->
+      "OK\t" ^ (if module_layout_ok ls then "T" else "F") ^ "\t"
+      ^ String.concat ";" (List.map (fun (n, ts) ->
+          string_of_int (nat_to_int n) ^ ":" ^ String.concat " " (List.map (fun t -> hex (stok_text t)) ts)) ls)
+
 (* ---------- lexer ---------- *)
 let rec pos_to_int = function XH -> 1 | XO p -> 2 * pos_to_int p | XI p -> 2 * pos_to_int p + 1
 let z_to_int = function Z0 -> 0 | Zpos p -> pos_to_int p | Zneg p -> - (pos_to_int p)
@@ -367,6 +450,7 @@ let handle cmd payload =
        | None -> "NONE")
   | "lex" -> lex_cmd payload
   | "gen" -> gen_cmd payload
+  | "plines" -> plines_cmd payload
   | "tableok" -> if table_ok generated then "OK\tT" else "OK\tF"
   | _ -> "BAD\tunknown command"
 
